@@ -240,7 +240,7 @@ package tree
 //@   loop 0 invariant rootHash(t.Tree)[rootLastIdx(t.Tree)] == solRootI(solBranch(t), lastRoot.Index, 32) ==> forall(k, h + 1, 32, bitSucc(lastRoot.Index, k) ==> siblings[k] == solBranch(t)[k])
 //@   loop 1 unroll 1
 
-//@ func (t *AppendOnlyTree) AddLeaf$1 ()
+//@ func (t *AppendOnlyTree) AddLeaf$1 ( | t)
 //@   props C07 C01 C08
 //@   requires t != nil
 //@   modifies t.lastIndex
